@@ -376,6 +376,71 @@ func setJudge(s kstate, p part, kv kvReq, status string, sm *swampModel, loose b
 	return next, nil
 }
 
+// setOne applies one item of a Set request to a key whose state is not a wildcard.
+func (m *model) setOne(sm *swampModel, km *keyModel, p part, kv kvReq, st string) *viol {
+	prev := km.label()
+	if km.wild {
+		if p.Create && p.Overwrite {
+			r := newRecord(kv)
+			opn := func(req int64, f *mt) {
+				if req == 0 {
+					*f = mt{Any: true}
+				}
+			}
+			ops := func(req string, f *ms) {
+				if req == "" {
+					*f = ms{Any: true}
+				}
+			}
+			opn(kv.Meta.CreatedAt, &r.CAt)
+			ops(kv.Meta.CreatedBy, &r.CBy)
+			opn(kv.Meta.UpdatedAt, &r.UAt)
+			ops(kv.Meta.UpdatedBy, &r.UBy)
+			opn(kv.Meta.ExpiredAt, &r.EAt)
+			if kv.Val.K == kSlice {
+				km.setWild(setProv(p, kv, prev)) // replace/merge over an unknown old value
+			} else {
+				km.wild, km.cands = false, []kstate{{R: r}}
+				km.prov, km.reloaded, km.loose = setProv(p, kv, prev), false, false
+			}
+		}
+		return nil
+	}
+	if v := km.judge(func(s kstate) ([]kstate, *viol) { return setJudge(s, p, kv, st, sm, km.loose) }); v != nil {
+		return v
+	}
+	if st == "NEW" || st == "UPDATED" {
+		km.prov, km.reloaded, km.loose = setProv(p, kv, prev), false, false
+	}
+	return nil
+}
+
+func permutations(n int) [][]int {
+	if n == 1 {
+		return [][]int{{0}}
+	}
+	var out [][]int
+	for _, p := range permutations(n - 1) {
+		for pos := 0; pos <= len(p); pos++ {
+			q := append(append(append([]int{}, p[:pos]...), n-1), p[pos:]...)
+			out = append(out, q)
+		}
+	}
+	// identity first: request order is the natural reading
+	for i, q := range out {
+		id := true
+		for j, x := range q {
+			if x != j {
+				id = false
+			}
+		}
+		if id {
+			out[0], out[i] = out[i], out[0]
+		}
+	}
+	return out
+}
+
 func (m *model) applySet(o *op, ob *obs) *viol {
 	if ob.Err != nil {
 		return &viol{"Set:error:" + ob.Err.Code + ":" + m.situation(o), "Set returned an error: " + ob.Err.Msg}
@@ -383,11 +448,36 @@ func (m *model) applySet(o *op, ob *obs) *viol {
 	if ob.NilResp {
 		return &viol{"Set:nil-response:" + m.situation(o), "Set returned no response and no error"}
 	}
+	// SetResponse.Swamps: "a list of responses, one per swamp" — read as one per SwampRequest, in
+	// request order per swamp name. Entries that carry neither an error code nor a status are
+	// ignored (a request item always produces one of the two).
+	entries := map[string][]*obsSwampStatuses{}
+	empties := map[string]*obsSwampStatuses{}
+	for i := range ob.Statuses {
+		e := &ob.Statuses[i]
+		if e.ErrCode == "" && len(e.Statuses) == 0 {
+			empties[e.Name] = e
+			continue
+		}
+		entries[e.Name] = append(entries[e.Name], e)
+	}
+	partsOf := map[string]int{}
+	for _, p := range o.Parts {
+		partsOf[m.sw[p.Sw].cfg.Name]++
+	}
+	next := map[string]int{}
 	for _, p := range o.Parts {
 		sm := m.sw[p.Sw]
-		os, n := findStatuses(ob.Statuses, sm.cfg.Name)
-		if n != 1 {
-			return &viol{fmt.Sprintf("Set:response:swamp-entries=%d", n), fmt.Sprintf("SetResponse has %d entries for swamp %s (documented: one per swamp): %s", n, sm.cfg.Name, ob)}
+		name := sm.cfg.Name
+		var os *obsSwampStatuses
+		switch {
+		case len(entries[name]) == partsOf[name]:
+			os = entries[name][next[name]]
+			next[name]++
+		case len(entries[name]) == 0 && partsOf[name] == 1 && empties[name] != nil:
+			os = empties[name]
+		default:
+			return &viol{fmt.Sprintf("Set:response:swamp-entries=%d:requested=%d", len(entries[name]), partsOf[name]), fmt.Sprintf("SetResponse has %d informative entries for swamp %s, the request has %d sections for it: %s", len(entries[name]), name, partsOf[name], ob)}
 		}
 		ex := sm.exist()
 		if !p.Create && !p.Overwrite {
@@ -406,55 +496,62 @@ func (m *model) applySet(o *op, ob *obs) *viol {
 			}
 			return &viol{fmt.Sprintf("Set:errcode:%s:%s:swamp=%s:%s", os.ErrCode, flagsLabel(p), ex, sm.mode()), fmt.Sprintf("Set %s on %s (model: exists=%s) answered ErrorCode %s: %s", flagsLabel(p), sm.cfg.Name, ex, os.ErrCode, ob)}
 		}
-		byKey := map[string]string{}
+		// KeysAndStatuses: "the outcome of each key's operation": one status per item. The items
+		// of one request are applied one after the other; the order is not documented, so for a key
+		// that the request names several times every order of its items is tried (items of
+		// different keys do not interact): the statuses and the stored value must equal SOME
+		// sequential processing. The i-th status of a key belongs to its i-th item.
+		if len(os.Statuses) != len(p.KVs) {
+			return &viol{"Set:response:status-count", fmt.Sprintf("%d statuses for %d items: %s", len(os.Statuses), len(p.KVs), ob)}
+		}
+		stOf := map[string][]string{}
 		for _, st := range os.Statuses {
-			if _, dup := byKey[st.Key]; dup {
-				return &viol{"Set:response:duplicate-key-status", fmt.Sprintf("two statuses for key %s: %s", st.Key, ob)}
-			}
-			byKey[st.Key] = st.Status
+			stOf[st.Key] = append(stOf[st.Key], st.Status)
 		}
-		if len(byKey) != len(p.KVs) {
-			return &viol{"Set:response:status-count", fmt.Sprintf("%d statuses for %d keys: %s", len(byKey), len(p.KVs), ob)}
-		}
+		itemsOf := map[string][]kvReq{}
+		var order []string
 		for _, kv := range p.KVs {
-			st, ok := byKey[kv.Key]
-			if !ok {
-				return &viol{"Set:response:key-missing", fmt.Sprintf("no status for key %s: %s", kv.Key, ob)}
+			if len(itemsOf[kv.Key]) == 0 {
+				order = append(order, kv.Key)
 			}
-			km := sm.keys[kv.Key]
-			prev := km.label()
-			if km.wild {
-				if p.Create && p.Overwrite {
-					r := newRecord(kv)
-					opn := func(req int64, f *mt) {
-						if req == 0 {
-							*f = mt{Any: true}
-						}
-					}
-					ops := func(req string, f *ms) {
-						if req == "" {
-							*f = ms{Any: true}
-						}
-					}
-					opn(kv.Meta.CreatedAt, &r.CAt)
-					ops(kv.Meta.CreatedBy, &r.CBy)
-					opn(kv.Meta.UpdatedAt, &r.UAt)
-					ops(kv.Meta.UpdatedBy, &r.UBy)
-					opn(kv.Meta.ExpiredAt, &r.EAt)
-					if kv.Val.K == kSlice {
-						km.setWild(setProv(p, kv, prev)) // replace/merge over an unknown old value
-					} else {
-						km.wild, km.cands = false, []kstate{{R: r}}
-						km.prov, km.reloaded, km.loose = setProv(p, kv, prev), false, false
-					}
+			itemsOf[kv.Key] = append(itemsOf[kv.Key], kv)
+		}
+		for _, k := range order {
+			items, sts := itemsOf[k], stOf[k]
+			if len(sts) != len(items) {
+				return &viol{"Set:response:key-status-count", fmt.Sprintf("%d statuses for key %s named %d times: %s", len(sts), k, len(items), ob)}
+			}
+			km := sm.keys[k]
+			if len(items) == 1 {
+				if v := m.setOne(sm, km, p, items[0], sts[0]); v != nil {
+					return v
 				}
 				continue
 			}
-			if v := km.judge(func(s kstate) ([]kstate, *viol) { return setJudge(s, p, kv, st, sm, km.loose) }); v != nil {
-				return v
+			var first *viol
+			done := false
+			for _, perm := range permutations(len(items)) {
+				trial := *km
+				trial.cands = append([]kstate{}, km.cands...)
+				var v *viol
+				for _, idx := range perm {
+					if v = m.setOne(sm, &trial, p, items[idx], sts[idx]); v != nil {
+						break
+					}
+				}
+				if v == nil {
+					*km = trial
+					done = true
+					break
+				}
+				if first == nil {
+					first = v
+				}
 			}
-			if st == "NEW" || st == "UPDATED" {
-				km.prov, km.reloaded, km.loose = setProv(p, kv, prev), false, false
+			if !done {
+				first.sig = "Set:repeated-key:" + first.sig
+				first.what = fmt.Sprintf("key %s is named %d times in one Set; no order of its items explains the statuses %v: %s", k, len(items), sts, first.what)
+				return first
 			}
 		}
 		if p.Create {
